@@ -15,9 +15,16 @@ mod decode;
 mod gen;
 mod mdbytes;
 mod obs;
+mod printed;
 use decode::Fig;
 use gen::*;
 use obs::*;
+
+thread_local! {
+    /// (request of `c13.html.rows`, what the real file page shows) of this run: header figures,
+    /// listed / hit rows, number of rows
+    pub static ROWS: std::cell::RefCell<Vec<(String, String)>> = std::cell::RefCell::new(vec![]);
+}
 
 // ---------------------------------------------------------------------------------------------
 // model answer vs implementation answer
@@ -56,6 +63,19 @@ fn agree(writer: &str, model: &str, imp: &str, case: &Case) -> Option<String> {
             if !(t.starts_with("K=") || t.starts_with("B=") || t.starts_with("J=")) {
                 *t = trim_values(t, 6);
             }
+        }
+    }
+    if writer == "html" && case.threads > 1 {
+        // which record of a repeated path keeps the row depends on the order in which the worker
+        // threads take the records: compared with one thread only
+        for (rel, _) in dup_paths(case) {
+            let (d, n) = match rel.rsplit_once('/') {
+                Some((d, n)) => (d.to_string(), n.to_string()),
+                None => (String::new(), rel.clone()),
+            };
+            let key = format!("F{}/{}=", hex(d.as_bytes()), hex(n.as_bytes()));
+            m.retain(|t| !t.starts_with(&key));
+            i.retain(|t| !t.starts_with(&key));
         }
     }
     let fixed = match writer {
@@ -346,6 +366,7 @@ pub fn run(rep: &mut Report) {
     }
 
     obs::FIGS.with(|f| *f.borrow_mut() = Some(vec![]));
+    printed::FIGS2.with(|f| *f.borrow_mut() = Some(vec![]));
     let mut rng = Rng::new(rep.seed ^ 0xC13);
     let n = rep.budget(1_600, 12);
     let html_every = 4;
@@ -359,9 +380,14 @@ pub fn run(rep: &mut Report) {
         if collision {
             rep.count("covdir.name_collision");
         }
+        let dup_only = collision && !has_file_dir_collision(&case) && !dup_paths(&case).is_empty();
+        if dup_only {
+            rep.count("html.duplicate_path_case");
+        }
         for &w in WRITERS {
-            // colliding paths cannot be laid out as source files (a file and a directory of one name)
-            if w == "html" && (i % html_every != 0 || collision) {
+            // a file and a directory of one name cannot be laid out as source files; the same path
+            // twice can (the "duplicate half" of the collisions: always run)
+            if w == "html" && !dup_only && (i % html_every != 0 || collision) {
                 continue;
             }
             let o = observe(&ctx.env, &case, w);
@@ -412,6 +438,26 @@ pub fn run(rep: &mut Report) {
         cases.push(case);
     }
 
+    // tie stream (part Printed): rates exactly between two printable values
+    {
+        let env2 = Env::new(&rep.workdir);
+        let mut trng = Rng::new(fnv64(&(rep.seed ^ 0xC13_71E).to_le_bytes()));
+        let mut tie_cases: Vec<(Case, &'static str)> = vec![];
+        printed::tie_stream(rep, &env2, &mut trng, &mut |_rep: &mut Report, c: &Case, w: &'static str| tie_cases.push((c.clone(), w)));
+        for (case, w) in tie_cases {
+            let o = observe(&ctx.env, &case, w);
+            let req = request(&ctx.env, w, &case);
+            rep.case(&req, true);
+            rep.count(&format!("tie.{}", w));
+            if !o.ofails.is_empty() {
+                report_ofails(rep, &mut ctx, &case, w, &o.ofails, false);
+            }
+            pend.push((cases.len(), w, o.canon, o.ofails.iter().any(|f| f.finding.is_none())));
+            reqs.push(req);
+            cases.push(case);
+        }
+    }
+
     let model = run_model_named("gm_c13", &reqs, &rep.workdir, "c13");
     let mut sampled = std::collections::BTreeSet::new();
     for (j, (ci, w, canon, oracle_failed)) in pend.iter().enumerate() {
@@ -449,6 +495,33 @@ pub fn run(rep: &mut Report) {
         }
     }
     rep.notes.push(format!("{} printed figures checked against the model's printedOK", figs.len()));
+    // large totals (part Printed), then every judged figure against Stats/Rounded.lean
+    {
+        let env2 = Env::new(&rep.workdir);
+        let mut brng = Rng::new(fnv64(&(rep.seed ^ 0xC13_B16).to_le_bytes()));
+        printed::big_totals(rep, &env2, &mut brng);
+    }
+    printed::compare_with_model(rep);
+    // the file pages against Writers.Docs.htmlRows / Stats.htmlStats (item 22)
+    {
+        let rows = ROWS.with(|v| std::mem::take(&mut *v.borrow_mut()));
+        let rreqs: Vec<String> = rows.iter().map(|r| r.0.clone()).collect();
+        let rans = run_model_named("gm_c13", &rreqs, &rep.workdir, "c13rows");
+        let mut bad = 0;
+        for (k, (req, got)) in rows.iter().enumerate() {
+            rep.count("html.file_page_rows_compared");
+            let parts: Vec<&str> = got.split(' ').collect();
+            rep.count(if parts[0] == parts[1] { "html.file_page.header_equals_listed_rows" } else { "html.file_page.header_counts_unlisted_lines" });
+            if rans[k] != *got {
+                bad += 1;
+                if bad <= 3 {
+                    rep.disagreements_checked += 1;
+                    rep.fail("disagreement", None, "html file page: header / listed rows differ from Stats.htmlStats / Writers.Docs.htmlRows".into(),
+                        json!({"op": "c13.rows", "request": req, "impl": got, "model": rans[k]}));
+                }
+            }
+        }
+    }
     mdbytes::run(rep);
 }
 
